@@ -17,6 +17,8 @@
 //	strlit   the `nth` string literal (source order) inside function `func`; emitted as list N
 //	field    value of field `ident` in the composite literal returned by / assigned in function `func`
 //	         (first match in source order); integer constant expression; emitted as Z
+//	cmp      operand `arg` (0 = left, 1 = right) of the `nth` comparison (> >= < <= == !=, source order)
+//	         inside function `func`; integer constant expression; emitted as Z
 package main
 
 import (
@@ -381,6 +383,46 @@ func main() {
 			})
 			if !done {
 				emitErr(fmt.Errorf("call #%d not found", it.Nth))
+			}
+		case "cmp":
+			sc := scope(f, it.Func)
+			if sc == nil {
+				emitErr(fmt.Errorf("function %s not found", it.Func))
+				continue
+			}
+			k, done := 0, false
+			ast.Inspect(sc, func(n ast.Node) bool {
+				if done {
+					return false
+				}
+				be, ok := n.(*ast.BinaryExpr)
+				if !ok {
+					return true
+				}
+				switch be.Op {
+				case token.GTR, token.GEQ, token.LSS, token.LEQ, token.EQL, token.NEQ:
+				default:
+					return true
+				}
+				if k == it.Nth {
+					done = true
+					x := be.X
+					if it.Arg == 1 {
+						x = be.Y
+					}
+					v, err := e.eval(x, 0, 0)
+					if err != nil {
+						emitErr(err)
+						return false
+					}
+					fmt.Fprintf(&b, "(* %s: %s, comparison #%d (%s), operand %d *)\nDefinition %s : Z := %s.\n", it.File, it.Func, it.Nth, be.Op, it.Arg, it.Name, zlit(v))
+					return false
+				}
+				k++
+				return true
+			})
+			if !done {
+				emitErr(fmt.Errorf("comparison #%d not found in %s", it.Nth, it.Func))
 			}
 		case "field":
 			sc := scope(f, it.Func)
